@@ -116,9 +116,39 @@ func c10Stressors(thorough bool) [][]byte {
 			[]byte(": T {\n"+strings.Repeat("  f: List[", d%3000+1)+"int"+strings.Repeat("]", d%3000+1)+"\n}\n"),
 		)
 	}
+	out = append(out, c10TokenBoundaries()...)
 	big := 1 << 20
 	out = append(out, wrap("  > "+strings.Repeat("x", big)), wrap("  > \""+strings.Repeat("s", big)+"\""), wrap("  > "+strings.Repeat("9", big)), wrap("  > 1."+strings.Repeat("9", big)),
 		wrap("  > \""+strings.Repeat("\\", big)), []byte(strings.Repeat("#", big)), []byte(strings.Repeat("\n", big)), []byte("\xef\xbb\xbf@ GET /t {\n  > 1\n}\n"), []byte("@ GET /t {\r\n  > 1\r\n}\r\n"), []byte("@ GET /t {\r  > 1\r}\r"))
+	return out
+}
+
+// c10TokenBoundaries: every prefix of every kind of lexeme, at end of input and followed by
+// each of a few continuation bytes, in three contexts. End-of-input inside a token (an escape
+// sequence, an exponent, a two-character operator, a comment opener) is where scanners index
+// one past the buffer.
+func c10TokenBoundaries() [][]byte {
+	lexemes := []string{
+		`"\x41"`, `'\x41'`, `"\u00e9"`, `"\u12aB"`, `"\xZZ"`, `"\u12"`, `"a\nb\t\\\"c"`, `"\0\a\b\f\v\r"`, `"\q"`, `'\''`, `"é日本"`, "\"tab\there\"",
+		`1.5e10`, `1e+5`, `1E-5`, `0x1F`, `0b101`, `0o17`, `1_000`, `.5`, `5.`, `1..2`, `9223372036854775808`, `1.7976931348623159e309`,
+		`...rest`, `|>`, `=>`, `->`, `::`, `&&`, `||`, `<=`, `>=`, `!=`, `==`, `+=`, `??`, `?.`,
+		`# comment`, `// comment`, `/* block */`, `/* open`,
+		`@ GET /a/:b`, `? q: int = 5`, `% db: Database`, `+ auth(jwt)`, `+ ratelimit(10/min)`, `< input: T`, `: T {`, `List[int]`, `List<int>`, `int?`, `str!`, `int | str`,
+		`{a: 1, "b": 2}`, `[1, ...x]`, `match x {`, `async {`, `await f`, `$ a.b = 1`, `a[0] = 1`, `x when x > 1 =>`, `! f<T>(x: T): T {`, `~ "0 * * * *"`, `& event`, `* queue`,
+		`route GET /a {`, `let x = 1`, `return x`, `middleware auth`, `expects T`, `validate x`,
+	}
+	contexts := []string{"", "$ s = ", "@ GET /t {\n  > "}
+	conts := []string{"", "\n", "\"", "'", "g", "\\", "\x00", " ", "}"}
+	var out [][]byte
+	for _, lx := range lexemes {
+		for cut := 1; cut <= len(lx); cut++ {
+			for _, ctx := range contexts {
+				for _, c := range conts {
+					out = append(out, []byte(ctx+lx[:cut]+c))
+				}
+			}
+		}
+	}
 	return out
 }
 
